@@ -129,21 +129,20 @@ AlgRows(G, N, t0, T, gv, k, Devs) ==
       bounded == G.hasmin \/ G.hasmax
   IN CASE G.kind = "free" -> <<BoxRow(G, gv.Tl[k])>> \o fixed
        [] G.kind = "uniform" ->
-            IF "UniformBoundsOnlyWhenLocalized" \in Devs
-            THEN IF k = 1 /\ Len(fixed) > 0
-                 THEN <<fixed[1]>>
-                      \o (IF HasTl(G) THEN <<BoxRow(G, TlAt(G, N, T, gv, 1))>>
-                          ELSE IF bounded THEN <<BoxRow(G, Mul(T, Q(1, N)))>> ELSE <<>>)
-                      \o SubSeq(fixed, 2, Len(fixed))
-                 ELSE fixed
-            ELSE fixed \o (IF k = 1 /\ bounded THEN <<BoxRow(G, Mul(T, Q(1, N)))>> ELSE <<>>)
+            LET bnd == IF HasTl(G) THEN <<BoxRow(G, TlAt(G, N, T, gv, 1))>>
+                       ELSE IF bounded THEN <<BoxRow(G, Mul(T, Q(1, N)))>> ELSE <<>>
+            IN IF "UniformBoundsOnlyWhenLocalized" \in Devs
+               THEN (IF k = 1 /\ Len(fixed) > 0 THEN fixed \o bnd ELSE fixed)
+               ELSE (IF k = 1 THEN fixed \o bnd ELSE fixed)
        [] G.kind = "geometric" ->
             LET first == IF k = 1 THEN <<BoxRow(G, IF HasTl(G) THEN TlAt(G, N, T, gv, 1) ELSE Mul(T, n[2]))>> ELSE <<>>
-                last  == IF k = N /\ "GeometricLastUnbounded" \notin Devs
+                last  == IF k = N /\ N > 1 /\ "GeometricLastUnbounded" \notin Devs
                          THEN <<BoxRow(G, IF HasTl(G) THEN TlAt(G, N, T, gv, N) ELSE Mul(T, Sub(n[N + 1], n[N])))>>
                          ELSE <<>>
             IN first \o last \o fixed
-       [] G.kind = "function" -> fixed
+       [] G.kind = "function" ->
+            (IF bounded /\ "FunctionGridUnbounded" \notin Devs
+             THEN <<BoxRow(G, Mul(T, Sub(n[k + 1], n[k])))>> ELSE <<>>) \o fixed
 
 FinalRows(G, N, t0, T, gv) ==
   IF G.kind = "free" THEN <<EqRow(Sub(ControlGrid(G, N, t0, T, gv)[N + 1], Add(t0, T)))>> ELSE <<>>
@@ -152,7 +151,9 @@ RECURSIVE AllAlgRowsFrom(_, _, _, _, _, _, _)
 AllAlgRowsFrom(G, N, t0, T, gv, k, Devs) ==
   IF k > N THEN FinalRows(G, N, t0, T, gv)
   ELSE AlgRows(G, N, t0, T, gv, k, Devs) \o AllAlgRowsFrom(G, N, t0, T, gv, k + 1, Devs)
-AllAlgRows(G, N, t0, T, gv, Devs) == AllAlgRowsFrom(G, N, t0, T, gv, 1, Devs)
+AllAlgRows(G, N, t0, T, gv, Devs) ==
+  IF "NoCouplingRows" \in Devs THEN FinalRows(G, N, t0, T, gv)   \* a method that never asks the grid for its rows
+  ELSE AllAlgRowsFrom(G, N, t0, T, gv, 1, Devs)
 
 RowHolds(r) ==
   IF r.rel = "eq" THEN Eq(r.e, Zero)
